@@ -107,14 +107,24 @@ func (cc *ClientConn) WaitForStateChange(ctx context.Context, source connectivit
 		return false
 	}
 	done := ctx.Done()
+	// like grpc.ClientConn: return at once if the state already differs from source; otherwise wait for
+	// ANY state change after this point (the real implementation waits on a channel that every change
+	// closes, so a waiter that is parked is woken even if the state has returned to source by the time
+	// it runs)
+	cc.mu.Lock()
+	g0, differs := cc.gen, cc.state != source
+	cc.mu.Unlock()
+	if differs {
+		return true
+	}
 	s.Yield(func() bool {
-		if cc.state != source {
+		if cc.gen != g0 {
 			return true
 		}
 		return done != nil && ctxDone(ctx)
 	}, "WaitForStateChange")
 	cc.mu.Lock()
-	changed := cc.state != source
+	changed := cc.gen != g0
 	cc.mu.Unlock()
 	if changed {
 		return true
